@@ -477,3 +477,217 @@ def population_through_dict(eng, rep, rule: str, modules: Iterable[str], consequ
                 rep.ok(rule, f.file, f.qual, norm(st, 70), "an index for lookups; the population is not read back from it")
     rep.ok(rule, "-", "-", "identity-valued dict comprehensions", "%d judged" % n)
     return n
+
+
+def short_islice(eng, rep, rule: str, modules: Iterable[str], consequence: str) -> int:
+    """list(islice(G(...), n)) where G is a generator of the repository that can end by itself (its loop has a condition): the
+    slice takes AT MOST n, so when G ends first the result is shorter than announced and nothing raises"""
+    from ..dataflow import Defs, parent_map
+    prog, cg = eng.prog, eng.cg
+    n = 0
+    for f in _funcs_in(eng, modules):
+        defs = None
+        for c in walk_local(f.node):
+            if not (isinstance(c, ast.Call) and (dotted(c.func) or "").split(".")[-1] == "islice" and len(c.args) >= 2):
+                continue
+            src = c.args[0]
+            if isinstance(src, ast.Name):
+                defs = defs or Defs(f.node)
+                vs = [v for k, v, st in defs.values(src.id) if v is not None]
+                src = vs[0] if len(vs) == 1 else src
+            if not isinstance(src, ast.Call):
+                continue
+            cs = cg.site_of.get(id(src))
+            if not cs or len(cs.callees) != 1 or cs.callees[0] not in prog.functions:
+                continue
+            g = prog.functions[cs.callees[0]]
+            if not any(isinstance(y, (ast.Yield, ast.YieldFrom)) for y in walk_local(g.node)):
+                continue
+            n += 1
+            # parameters of G that this call fixes to a constant (explicitly or by default)
+            consts: Dict[str, object] = {}
+            gps = list(g.node.args.posonlyargs) + list(g.node.args.args)
+            dflt = [None] * (len(gps) - len(g.node.args.defaults)) + list(g.node.args.defaults)
+            for i_, (p_, d_) in enumerate(zip(gps, dflt)):
+                a_ = src.args[i_] if i_ < len(src.args) else next((k.value for k in src.keywords if k.arg == p_.arg), d_)
+                if isinstance(a_, ast.Constant):
+                    consts[p_.arg] = a_.value
+            stored = {x.id for x in walk_local(g.node) if isinstance(x, ast.Name) and isinstance(x.ctx, ast.Store)}
+
+            def truth(e):
+                if isinstance(e, ast.Constant):
+                    return bool(e.value)
+                if isinstance(e, ast.Name) and e.id in consts and e.id not in stored:
+                    return bool(consts[e.id])
+                if isinstance(e, ast.UnaryOp) and isinstance(e.op, ast.Not):
+                    t_ = truth(e.operand)
+                    return None if t_ is None else (not t_)
+                if isinstance(e, ast.BoolOp):
+                    ts = [truth(v) for v in e.values]
+                    if isinstance(e.op, ast.Or):
+                        return True if any(t_ is True for t_ in ts) else (False if all(t_ is False for t_ in ts) else None)
+                    return False if any(t_ is False for t_ in ts) else (True if all(t_ is True for t_ in ts) else None)
+                return None
+            endless = all(isinstance(w, ast.While) and truth(w.test) is True for w in walk_local(g.node) if isinstance(w, (ast.While, ast.For))) and not any(isinstance(r, ast.Return) for r in walk_local(g.node)) and any(isinstance(w, ast.While) for w in walk_local(g.node))
+            site = norm(c, 60)
+            if endless:
+                rep.ok(rule, f.file, f.qual, site, "the generator %s never ends by itself (its reads raise on overrun)" % g.name)
+                continue
+            # a length check after the slice?
+            checked = False
+            for st in walk_local(f.node):
+                if isinstance(st, ast.If) and any(isinstance(b, ast.Raise) for b in ast.walk(st)) and any(isinstance(x, ast.Call) and dotted(x.func) == "len" for x in ast.walk(st.test)):
+                    checked = True
+            if checked:
+                rep.undecided(rule, f.file, f.qual, site, "the slice may come out short; a length test with a raise follows, whether it covers this slice is not decided")
+            else:
+                rep.violation(rule, f.file, f.qual, site, "islice takes AT MOST the announced number of elements; the generator %s ends by itself when its condition fails (input used up), so the result is silently shorter than the count that was decoded: %s" % (g.name, consequence))
+    rep.ok(rule, "-", "-", "count-bounded slices of repository generators", "%d judged" % n)
+    return n
+
+
+def stopiteration_in_map(eng, rep, rule: str, modules: Iterable[str], consequence: str) -> int:
+    """map(f, ...) / filter(f, ...) where f may raise StopIteration (a bare next(it) somewhere below it): map treats that as the
+    end of ITS iteration, so list(map(...)) is silently cut short instead of failing"""
+    prog, cg = eng.prog, eng.cg
+    fs = _funcs_in(eng, modules)
+
+    def caught(fn_node, node) -> bool:
+        # node inside a try whose handlers name StopIteration / Exception / everything
+        for t in ast.walk(fn_node):
+            if isinstance(t, ast.Try) and any(node is x for b in t.body for x in ast.walk(b)):
+                for h in t.handlers:
+                    names = [] if h.type is None else [(dotted(e) or "") for e in (h.type.elts if isinstance(h.type, ast.Tuple) else [h.type])]
+                    if h.type is None or any(nm.split(".")[-1] in ("StopIteration", "Exception", "BaseException") for nm in names):
+                        return True
+        return False
+
+    raising: Set[str] = set()
+    for f in fs:
+        for c in walk_local(f.node):
+            if isinstance(c, ast.Call) and dotted(c.func) == "next" and len(c.args) == 1 and not caught(f.node, c):
+                raising.add(f.qual)
+    changed = True
+    while changed:
+        changed = False
+        for f in fs:
+            if f.qual in raising:
+                continue
+            for cs in cg.sites_in(f):
+                if cs.how != "by-name" and set(cs.callees) & raising and not caught(f.node, cs.node):
+                    raising.add(f.qual)
+                    changed = True
+                    break
+    n = 0
+    for f in fs:
+        for c in walk_local(f.node):
+            if isinstance(c, ast.Call) and isinstance(c.func, ast.Name) and c.func.id in ("map", "filter") and c.args:
+                fv = c.args[0]
+                q = None
+                if isinstance(fv, ast.Attribute) and isinstance(fv.value, ast.Name) and fv.value.id == "self" and f.cls is not None:
+                    m = prog.find_method(f.cls, fv.attr)
+                    q = m.qual if m is not None else None
+                elif isinstance(fv, (ast.Name, ast.Attribute)):
+                    r = prog.resolve_expr_symbol(f.module, f, fv)
+                    q = r[1] if r and r[0] == "func" else None
+                if q is None:
+                    continue
+                n += 1
+                if q in raising:
+                    rep.violation(rule, f.file, f.qual, norm(c, 60), "%s can raise StopIteration (a bare next() below it); inside map() that ends the map quietly, so the result is cut short instead of failing: %s" % (q.split(".")[-1], consequence))
+                else:
+                    rep.ok(rule, f.file, f.qual, norm(c, 60), "the mapped function raises no StopIteration")
+    rep.ok(rule, "-", "-", "map()/filter() over repository functions", "%d judged" % n)
+    return n
+
+
+def grow_only_cycle_guard(eng, rep, rule: str, modules: Iterable[str], consequence: str) -> int:
+    """a work-list walk that rejects ("contains itself" / error) whatever it meets a SECOND time, remembering everything it met in
+    a set that only grows: meeting something twice is not a cycle - two siblings may refer to the same thing (a diamond).  A cycle
+    guard has to forget an element when the walk leaves it (path, not history)."""
+    n = 0
+    for f in _funcs_in(eng, modules):
+        sets = set()
+        for st in walk_local(f.node):
+            if isinstance(st, ast.Assign) and len(st.targets) == 1 and isinstance(st.targets[0], ast.Name):
+                v = st.value
+                if isinstance(v, (ast.Set, ast.SetComp)) or (isinstance(v, ast.Call) and dotted(v.func) == "set"):
+                    sets.add(st.targets[0].id)
+        for S in sorted(sets):
+            rebinds = sum(1 for st in walk_local(f.node) if isinstance(st, (ast.Assign, ast.AugAssign)) and any(isinstance(t, ast.Name) and t.id == S for t in (st.targets if isinstance(st, ast.Assign) else [st.target])))
+            shrinks = [c for c in walk_local(f.node) if isinstance(c, ast.Call) and isinstance(c.func, ast.Attribute) and isinstance(c.func.value, ast.Name) and c.func.value.id == S and c.func.attr in ("remove", "discard", "pop", "clear", "difference_update")]
+            for w in walk_local(f.node):
+                if not isinstance(w, ast.While):
+                    continue
+                adds = [c for c in ast.walk(w) if isinstance(c, ast.Call) and isinstance(c.func, ast.Attribute) and isinstance(c.func.value, ast.Name) and c.func.value.id == S and c.func.attr == "add"]
+                guards = []
+                for st in ast.walk(w):
+                    if isinstance(st, ast.If) and isinstance(st.test, ast.Compare) and len(st.test.ops) == 1 and isinstance(st.test.ops[0], ast.In) and isinstance(st.test.comparators[0], ast.Name) and st.test.comparators[0].id == S:
+                        rejects = any(isinstance(b, ast.Raise) or (isinstance(b, ast.Return) and isinstance(b.value, ast.Call) and (dotted(b.value.func) or "").split(".")[-1] in ("error", "Error", "Err")) for b in st.body)
+                        if rejects:
+                            guards.append(st)
+                if not adds or not guards:
+                    continue
+                n += 1
+                same = any(norm(a.args[0]) == norm(g_.test.left) for a in adds for g_ in guards if a.args)
+                if same and not shrinks and rebinds == 1:
+                    rep.violation(rule, f.file, f.qual, "if %s: reject ... %s" % (norm(guards[0].test, 40), norm(adds[0], 40)), "the walk rejects anything it meets a second time and never forgets what it has met: something referred to from two places (a struct used by two fields) is reported as a cycle - %s" % consequence)
+                else:
+                    rep.ok(rule, f.file, f.qual, "if %s: reject" % norm(guards[0].test, 40), "the set of met elements also shrinks (a path, not a history)")
+    rep.ok(rule, "-", "-", "reject-on-revisit guards in work-list walks", "%d judged" % n)
+    return n
+
+
+def scratch_by_suffix(eng, rep, rule: str, modules: Iterable[str]) -> int:
+    """a scratch file named target.with_suffix(".x"): with_suffix REPLACES the extension, so the scratch of `fcp.h` is `fcp.x` -
+    a file name of its own in the output directory, which is then written, renamed or removed although no generator returned it"""
+    from ..dataflow import Defs
+    n = 0
+    for f in _funcs_in(eng, modules):
+        defs = None
+        for c in walk_local(f.node):
+            if not (isinstance(c, ast.Call) and isinstance(c.func, ast.Attribute) and c.func.attr == "with_suffix" and c.args):
+                continue
+            # the local it is bound to
+            from ..dataflow import parent_map
+            pm = parent_map(f.node)
+            par = pm.get(id(c))
+            nm = par.targets[0].id if isinstance(par, ast.Assign) and len(par.targets) == 1 and isinstance(par.targets[0], ast.Name) else None
+            uses = []
+            for x in walk_local(f.node):
+                if not isinstance(x, ast.Call):
+                    continue
+                d = dotted(x.func) or ""
+                args = list(x.args) + [k.value for k in x.keywords]
+                names_arg = any((isinstance(a, ast.Name) and a.id == nm) or a is c for a in args)
+                recv = x.func.value if isinstance(x.func, ast.Attribute) else None
+                on_it = recv is not None and ((isinstance(recv, ast.Name) and recv.id == nm) or recv is c)
+                if d.split(".")[-1] in ("replace", "rename", "remove", "unlink", "move") and (names_arg or on_it):
+                    uses.append(norm(x, 50))
+                elif d == "open" and names_arg and len(x.args) > 1 and isinstance(x.args[1], ast.Constant) and any(m in str(x.args[1].value) for m in "wax"):
+                    uses.append(norm(x, 50))
+                elif on_it and x.func.attr in ("open", "write_text", "write_bytes", "touch"):
+                    uses.append(norm(x, 50))
+                elif names_arg and cg_writes(eng, f, x):
+                    uses.append(norm(x, 50))
+            n += 1
+            if uses:
+                rep.violation(rule, f.file, f.qual, norm(c, 50), "the scratch file is named by REPLACING the target's extension (%s) and is then written / renamed / removed (%s): a file of that name that was already in the output directory - one that no generator returned - is overwritten and lost" % (norm(c, 40), uses[0]))
+            else:
+                rep.ok(rule, f.file, f.qual, norm(c, 50), "not used as a file that is written, renamed or removed here")
+    rep.ok(rule, "-", "-", "paths derived with with_suffix in the writer", "%d judged" % n)
+    return n
+
+
+def cg_writes(eng, f: FuncInfo, call: ast.Call) -> bool:
+    """the call goes to a repository function that opens its first path parameter for writing"""
+    cs = eng.cg.site_of.get(id(call))
+    if not cs or len(cs.callees) != 1 or cs.callees[0] not in eng.prog.functions:
+        return False
+    g = eng.prog.functions[cs.callees[0]]
+    for x in walk_local(g.node):
+        if isinstance(x, ast.Call) and (dotted(x.func) or "") == "open" and len(x.args) > 1 and isinstance(x.args[1], ast.Constant) and any(m in str(x.args[1].value) for m in "wax"):
+            return True
+        if isinstance(x, ast.Call) and isinstance(x.func, ast.Attribute) and x.func.attr in ("write_text", "write_bytes"):
+            return True
+    return False
